@@ -83,7 +83,7 @@ def lean_build(targets):
     """returns (ok, log, broken) where broken = list of (file, line, message)"""
     with Lock(os.path.join(LEAN, '.build.lock')):
         run([sys.executable, os.path.join(ROOT, 'harness', 'gen_driver.py')])
-        rc, log = run(['lake', 'build'] + list(targets), cwd=LEAN)
+        rc, log = run(['timeout', '1500', 'lake', 'build'] + list(targets), cwd=LEAN)
     broken = []
     for m in re.finditer(r'error: ([\w/\.]+\.lean):(\d+):(\d+): (.*)', log):
         broken.append((m.group(1), int(m.group(2)), m.group(4)))
